@@ -1,6 +1,12 @@
 import FormulaicVerif.Proofs.C03
 import FormulaicVerif.Proofs.TensorRank
 import FormulaicVerif.Proofs.C03Bridge
+import FormulaicVerif.Proofs.C03Matrix
+import FormulaicVerif.Proofs.C03Codings
+import FormulaicVerif.Proofs.C03Order
+import FormulaicVerif.Proofs.C03Example
+import FormulaicVerif.Proofs.C03Model
+import FormulaicVerif.Proofs.C03CrossedMain
 import Mathlib.Algebra.Field.Rat
 /-! # C03 — Rank reduction yields a structurally full-rank matrix with unchanged span
 
@@ -20,9 +26,21 @@ The bridge from this combinatorial statement to linear algebra is proved (sectio
 coding spans `1 ⊕ reduced coding`; (2) a scoped term with full-coded factors spans exactly the sum of
 its structural components on a fully crossed design; (3) hence the columns of the structure emitted
 with rank reduction on are linearly independent and span what the unreduced structure spans
-(`reduced_matrix_full_rank_same_span`). What is left as `-- FULL (unproved)` at the end is only the
-identification of these structure columns with the `List Rat` Entry columns of `buildMatrix` (C02's
-`column_is_product` is the pointwise form of it). -/
+(`reduced_matrix_full_rank_same_span`).
+
+Section `matrix` carries this down to the `List Rat` columns of the matrix `buildMatrix` emits
+(`matrix_columns_are_structure_columns`, `matrix_full_rank_same_span`: any factor cache that holds a fully crossed
+design), shows that any coding with `[1 | coding]` invertible — every built-in contrast, from C11 — satisfies the
+per-factor hypothesis, and that the spanned space does not depend on the order or clustering of the terms. Section
+`crossed` proves the property for the matrix that `Model.Crossed` computes from a design description alone, for EVERY
+well-formed design (`crossed_model_full_rank_same_span`), with all hypotheses in executable form
+(`certified_design_full_rank_same_span`: the engine evaluates the check for every case of the correspondence). Section
+`model` covers what else entered the model with the extension (factors without values, structural identity of scoped
+factors / terms, the model's frame, the name templates read from the live package).
+
+Excluded by hypothesis, and reported as a known finding when the generator produces it: printed-name collisions
+(`noCollision`; C03-F1). (Level labels that begin with `__` used to lose their column — former finding C03-F2; since
+the repair of the library they are ordinary labels, and `Model.flattenDict` no longer hides any key.) -/
 
 namespace FormulaicVerif.Props.C03
 open FormulaicVerif.Model FormulaicVerif.Spec FormulaicVerif.Proofs.C03 FormulaicVerif.Proofs.C02
@@ -335,16 +353,455 @@ example : ∃ rs rsFull, buildStructure (demoCfg2 true) = .ok rs ∧
 
 end bridge
 
--- FULL (unproved): `matrix_columns_are_structure_columns` — the identification of `structureColumns` with the Entry
---   columns of `buildMatrix`. `column_is_product` (C02) proves that every Entry column of the model equals,
---   row by row, the non-zero literal scale times the product of the encoded factor columns its label names,
---   and `kron_full` / `entry_provenance` that a term contributes one Entry per choice of one column per
---   factor; `structureColumns` is that same product with the encoded columns read as functions of the
---   factor's level on the crossed design. Stating this as a Lean theorem needs a row enumeration
---   `Fin nrows ≃ Π i, L i`, a bijection between the fields of each encoded factor and `JR i` / `JF i`, and
---   freedom from printed-name collisions (Python dict keys); it is not formalised. The numeric oracle of
---   harness/props/c03.py (matrix_rank on fully crossed designs: rank(reduced) = number of columns,
---   rank([reduced | full]) = rank(full) = rank(reduced)) checks the conclusion on the real matrices on
---   every generated case.
+section matrix
+open FormulaicVerif.Proofs.TensorRank FormulaicVerif.Proofs.C03Bridge FormulaicVerif.Proofs.C03Matrix
+  FormulaicVerif.Proofs.C03Ref FormulaicVerif.Proofs.C03Codings FormulaicVerif.Proofs.C03Order FormulaicVerif.Spec.C03
+  FormulaicVerif.Proofs.C03Example
+
+/-! ### from the structure to the matrix the model emits
+
+`CrossedDesign c nrows k expr tab B row` (`Proofs/C03Matrix.lean`) says that the factor cache `c` holds a fully crossed
+design: the axes `i : Fin n` are pairwise different factor expressions `expr i` with `k i` levels; `row r i` is the level of
+axis `i` in data row `r` and EVERY combination of levels occurs in some row (`row` surjective — rows may repeat);
+`tab i b` is what `_encode_evaled_factor` returns for factor `i` with `reduced_rank = b`, and its `j`-th column is the
+function `B i b j` of the level of axis `i` read along the rows. `colVec nrows e` is the `List Rat` column of a matrix
+entry as a vector indexed by the rows. `noCollision cfg asDict` (`Spec/MatrixRef.lean`, decidable, computed by the engine
+for every case) says that no two columns of one term — for dict-assembled output: of the whole matrix — print to the same
+name; without it Python's dictionaries drop columns (known finding C03-F1 is exactly such a case). -/
+
+/-- C03.6  (the bridge that used to be `FULL (unproved)`) The `List Rat` columns of the matrix `buildMatrix` emits ARE the
+abstract structure columns of the structure it records: on a fully crossed design without printed-name collisions, every
+emitted column is its term's (non-zero) literal scale times a structure column of `rs` read along the data rows, every
+structure column occurs, and there are exactly as many. Hence the emitted columns span the structure space read along the
+rows, and are linearly independent whenever the structure columns are. -/
+theorem matrix_columns_are_structure_columns (cfg : Config) (asDict : Bool) (out : List Entry)
+    (h : buildMatrix cfg asDict = .ok out) (hnc : noCollision cfg asDict = true)
+    (hwf : ∀ t ∈ cfg.terms, t.Nodup)
+    (hsc : ∀ t ∈ cfg.terms, ∀ efs, evaledFactors cfg.cache t = .ok efs → literalScale efs ≠ 0)
+    {n : ℕ} (k : Fin n → ℕ) (expr : Fin n → String) (tab : Fin n → Bool → List Item)
+    (B : (i : Fin n) → (b : Bool) → Fin (tab i b).length → (Fin (k i) → ℚ))
+    (row : Fin cfg.nrows → (i : Fin n) → Fin (k i))
+    (hd : CrossedDesign cfg.cache cfg.nrows k expr tab B row)
+    (rs : List TermResult) (hrs : buildStructure cfg = .ok rs)
+    (hcov : ∀ st ∈ rs.flatMap (·.sts), ∀ sf ∈ st.factors, ∃ i, expr i = sf.expr) :
+    Submodule.span ℚ (Set.range (fun a : Fin out.length => colVec cfg.nrows out[a])) =
+      (Submodule.span ℚ (Set.range (structureColumns expr (Rd k tab B) (Fd k tab B) (rs.flatMap (·.sts))))).map
+        (LinearMap.funLeft ℚ ℚ row) ∧
+    (LinearIndependent ℚ (structureColumns expr (Rd k tab B) (Fd k tab B) (rs.flatMap (·.sts))) →
+      LinearIndependent ℚ (fun a : Fin out.length => colVec cfg.nrows out[a])) := by
+  obtain ⟨rs', hrs', href⟩ := matrix_eq_ref h hnc
+  rw [hrs, Except.ok.injEq] at hrs'
+  subst hrs'
+  exact matrix_columns_linear hd _ (exprNodup_of_structure hrs hwf) hcov (scale_ne_zero_of_structure hrs hsc) href
+
+/-- C03.7  THE PROPERTY on the matrix the model emits. For every term list (any subset lattice of interactions, any
+order, either clustering, intercept anywhere or absent, non-zero literal scalings), on data that contain every
+combination of levels (`CrossedDesign`), with per-factor codings satisfying `Hyp` (for categorical factors: `[1 | reduced
+coding]` invertible — every built-in contrast, C03.8/C03.9 — against a full coding of as many independent columns as
+levels; numeric factors: at least two different values), and no printed-name collisions: the columns of the matrix built
+with rank reduction ON are linearly independent, and they span the same space as the columns of the matrix built with rank
+reduction OFF. -/
+theorem matrix_full_rank_same_span (cfg : Config) (hefr : cfg.ensureFullRank = true)
+    (hwf : ∀ t ∈ cfg.terms, t.Nodup)
+    (hsc : ∀ t ∈ cfg.terms, ∀ efs, evaledFactors cfg.cache t = .ok efs → literalScale efs ≠ 0)
+    (asDict : Bool) (out outFull : List Entry) (h : buildMatrix cfg asDict = .ok out)
+    (hfull : buildMatrix { cfg with ensureFullRank := false } asDict = .ok outFull)
+    (hnc : noCollision cfg asDict = true) (hncF : noCollision { cfg with ensureFullRank := false } asDict = true)
+    {n : ℕ} (k : Fin n → ℕ) (expr : Fin n → String) (tab : Fin n → Bool → List Item)
+    (B : (i : Fin n) → (b : Bool) → Fin (tab i b).length → (Fin (k i) → ℚ))
+    (row : Fin cfg.nrows → (i : Fin n) → Fin (k i))
+    (hd : CrossedDesign cfg.cache cfg.nrows k expr tab B row)
+    (hyp : Hyp (Rd k tab B) (Fd k tab B) (fun i => spansOf cfg.cache (expr i)))
+    (hcov : ∀ rs rsFull, buildStructure cfg = .ok rs → buildStructure { cfg with ensureFullRank := false } = .ok rsFull →
+      ∀ st ∈ rs.flatMap (·.sts) ++ rsFull.flatMap (·.sts), ∀ sf ∈ st.factors, ∃ i, expr i = sf.expr) :
+    LinearIndependent ℚ (fun a : Fin out.length => colVec cfg.nrows out[a]) ∧
+    Submodule.span ℚ (Set.range (fun a : Fin out.length => colVec cfg.nrows out[a])) =
+      Submodule.span ℚ (Set.range (fun a : Fin outFull.length => colVec cfg.nrows outFull[a])) := by
+  obtain ⟨rs, hrs, _⟩ := matrix_eq_ref h hnc
+  obtain ⟨rsFull, hrsFull, _⟩ := matrix_eq_ref hfull hncF
+  have hc := hcov rs rsFull hrs hrsFull
+  obtain ⟨hli, hspan⟩ := reduced_matrix_full_rank_same_span cfg hefr hwf hsc rs rsFull hrs hrsFull expr hd.expr_inj
+    (Rd k tab B) (Fd k tab B) hyp hc
+  obtain ⟨s1, l1⟩ := matrix_columns_are_structure_columns cfg asDict out h hnc hwf hsc k expr tab B row hd rs hrs
+    (fun st hst => hc st (List.mem_append_left _ hst))
+  obtain ⟨s2, _⟩ := matrix_columns_are_structure_columns { cfg with ensureFullRank := false } asDict outFull hfull hncF
+    hwf hsc k expr tab B row hd rsFull hrsFull (fun st hst => hc st (List.mem_append_right _ hst))
+  refine ⟨l1 hli, ?_⟩
+  rw [s1, hspan]
+  exact s2.symm
+
+/-- every factor of every emitted scoped term is an axis of the example design -/
+def exCovered (rs : List TermResult) : Bool :=
+  rs.all (fun r => r.sts.all (fun st => st.factors.all (fun sf => decide (∃ i, exExpr i = sf.expr))))
+
+/-- non-vacuity of C03.6 / C03.7: on the design of `Proofs/C03Example.lean` (computed by the crossed-design model:
+`0 + A + 2:A:C(B, contr.sum) + A:x` on 2 × 3 × 2 = 12 rows) EVERY hypothesis holds, and the theorem gives 8 linearly
+independent columns spanning the space of the 10 unreduced ones -/
+example : ∃ out outFull, buildMatrix (exCfg true) false = .ok out ∧ buildMatrix (exCfg false) false = .ok outFull ∧
+    out.length = 8 ∧ outFull.length = 10 ∧
+    LinearIndependent ℚ (fun a : Fin out.length => colVec 12 out[a]) ∧
+    Submodule.span ℚ (Set.range (fun a : Fin out.length => colVec 12 out[a])) =
+      Submodule.span ℚ (Set.range (fun a : Fin outFull.length => colVec 12 outFull[a])) := by
+  have hlen : ((buildMatrix (exCfg true) false).toOption.map List.length) = some 8 ∧
+      ((buildMatrix (exCfg false) false).toOption.map List.length) = some 10 := by decide +kernel
+  cases h1 : buildMatrix (exCfg true) false with
+  | error e => simp [h1, Except.toOption] at hlen
+  | ok out =>
+    cases h2 : buildMatrix (exCfg false) false with
+    | error e => simp [h2, Except.toOption] at hlen
+    | ok outFull =>
+      simp only [h1, h2, Except.toOption, Option.map_some, Option.some.injEq] at hlen
+      refine ⟨out, outFull, rfl, rfl, hlen.1, hlen.2, ?_⟩
+      have hsc : ∀ t ∈ (exCfg true).terms, ∀ efs, evaledFactors (exCfg true).cache t = .ok efs →
+          literalScale efs ≠ 0 := by
+        have hall : ∀ t ∈ (exCfg true).terms, nonzeroScale exCache t = true := by decide +kernel
+        intro t ht efs he
+        have := hall t ht
+        have he' : evaledFactors exCache t = .ok efs := he
+        simp only [nonzeroScale, he', bne_iff_ne, ne_eq] at this
+        exact this
+      have hcovB : (match buildStructure (exCfg true), buildStructure (exCfg false) with
+          | .ok rs, .ok rsFull => exCovered rs && exCovered rsFull
+          | _, _ => false) = true := by decide +kernel
+      apply matrix_full_rank_same_span (exCfg true) rfl (by decide) hsc false out outFull h1 h2
+        (by decide +kernel) (by decide +kernel) exK exExpr exTab exB exRow exDesign_crossed exDesign_hyp
+      intro rs rsFull hrs hrsFull st hst sf hsf
+      have hrsF : buildStructure (exCfg false) = .ok rsFull := hrsFull
+      simp only [hrs, hrsF, Bool.and_eq_true, exCovered, List.all_eq_true, decide_eq_true_eq] at hcovB
+      rcases List.mem_append.mp hst with hst | hst
+      · obtain ⟨r, hr, hin⟩ := List.mem_flatMap.mp hst
+        exact hcovB.1 r hr st hin sf hsf
+      · obtain ⟨r, hr, hin⟩ := List.mem_flatMap.mp hst
+        exact hcovB.2 r hr st hin sf hsf
+
+/-! ### every contrast -/
+
+/-- C03.8  ANY coding satisfies the per-factor hypothesis `Hyp` of the bridge: for a factor that spans the intercept it is
+enough that `[1 | R]` is linearly independent with one column fewer than there are levels (the square matrix `[1 | coding]` is
+invertible) and that the full coding `F` has as many linearly independent columns as there are levels (the dummy coding, but
+not only); for any other factor that `[1 | R]` and `F` are independent and span the same space. Nothing else about the
+coding matrix is used anywhere in C03.5–C03.7. -/
+theorem any_invertible_coding_satisfies_hyp {n : ℕ} {L JR JF : Fin n → Type} [∀ i, Fintype (L i)]
+    [∀ i, Fintype (JR i)] [∀ i, Fintype (JF i)]
+    (R : (i : Fin n) → JR i → (L i → ℚ)) (F : (i : Fin n) → JF i → (L i → ℚ)) (spans : Fin n → Bool)
+    (hR : ∀ i, LinearIndependent ℚ (aug (R i))) (hF : ∀ i, LinearIndependent ℚ (F i))
+    (hcat : ∀ i, spans i = true →
+      Fintype.card (JR i) + 1 = Fintype.card (L i) ∧ Fintype.card (JF i) = Fintype.card (L i))
+    (hnum : ∀ i, spans i = false → Submodule.span ℚ (Set.range (F i)) = Submodule.span ℚ (Set.range (R i))) :
+    Hyp R F spans :=
+  hyp_of_axes R F spans hR hF hcat hnum
+
+/-- C03.9  EVERY built-in contrast, every number of levels: for treatment / SAS coding with any reference level, sum
+coding, Helmert coding (reversed or not, scaled or not), difference coding (backward or forward) and polynomial coding
+with pairwise distinct scores, on `m + 1` levels, the constant column together with the `m` columns of the coding matrix
+(`Model.Contrasts.coding`, the matrix the model of `transforms/contrasts.py` computes and C11 ties to the code) is
+linearly independent — the hypothesis `hR` of C03.8, from C11's `augmented_invertible`. (The polynomial columns of the
+code are these columns divided by positive square roots, which changes neither independence nor span.) -/
+theorem builtin_contrast_independent (k : FormulaicVerif.Model.Contrasts.Kind) (m : ℕ)
+    (hv : FormulaicVerif.Props.C11.Valid k (m + 1)) : LinearIndependent ℚ (aug (builtinR k m)) :=
+  builtin_aug_linearIndependent k m hv
+
+/-- non-vacuity of C03.9: Helmert coding on 4 levels, treatment coding with reference level 2 of 5 -/
+example : FormulaicVerif.Props.C11.Valid (.helmert true false) (3 + 1) ∧ FormulaicVerif.Props.C11.Valid (.treatment 2) (4 + 1) :=
+  ⟨trivial, by show 2 < 5; omega⟩
+
+/-- C03.9b  A numeric variable that takes at least two different values on the design is independent of the constant
+column (the hypothesis `hR` of C03.8 for numeric axes; the harness crosses every numeric variable over two primes). -/
+theorem numeric_axis_independent {m : ℕ} (v : Fin m → ℚ) (a b : Fin m) (hab : v a ≠ v b) :
+    LinearIndependent ℚ (aug (numR v)) :=
+  num_aug_linearIndependent v a b hab
+
+example : (fun l : Fin 2 => if l = 0 then (2 : ℚ) else 3) 0 ≠ (fun l : Fin 2 => if l = 0 then (2 : ℚ) else 3) 1 := by
+  norm_num
+
+/-! ### every ordering or clustering of the terms -/
+
+/-- C03.10  The structural components emitted with rank reduction on do not depend on the ORDER of the terms nor on the
+CLUSTERING: two configurations over the same factor cache whose term lists are permutations of each other (whatever their
+`cluster_by`) emit the same components, each exactly once. (Which scoped term carries a component does depend on the
+order — the greedy choice — but the set covered does not.) -/
+theorem components_order_invariant (cfg cfg' : Config) (hcache : cfg'.cache = cfg.cache)
+    (hperm : cfg'.terms.Perm cfg.terms) (hefr : cfg.ensureFullRank = true) (hefr' : cfg'.ensureFullRank = true)
+    (hwf : ∀ t ∈ cfg.terms, t.Nodup)
+    (hsc : ∀ t ∈ cfg.terms, ∀ efs, evaledFactors cfg.cache t = .ok efs → literalScale efs ≠ 0)
+    (rs rs' : List TermResult) (h : buildStructure cfg = .ok rs) (h' : buildStructure cfg' = .ok rs') :
+    (compsAll (spansOf cfg.cache) (rs.flatMap (·.sts))).Perm (compsAll (spansOf cfg.cache) (rs'.flatMap (·.sts))) := by
+  have hwf' : ∀ t ∈ cfg'.terms, t.Nodup := fun t ht => hwf t (hperm.mem_iff.mp ht)
+  have hsc' : ∀ t ∈ cfg'.terms, ∀ efs, evaledFactors cfg'.cache t = .ok efs → literalScale efs ≠ 0 := by
+    intro t ht efs he
+    rw [hcache] at he
+    exact hsc t (hperm.mem_iff.mp ht) efs he
+  have h1 := structure_comps hefr hwf hsc h
+  have h2 := structure_comps hefr' hwf' hsc' h'
+  rw [hcache] at h2
+  exact h1.trans ((newKeys_perm hperm hwf').symm.trans h2.symm)
+
+/-- non-vacuity: `0 + A:x + 2:A:B + B` and the reordered `0 + B + A:x + 2:A:B` (clustered by numerical factors) -/
+example : ((buildStructure (demoCfg true)).toOption.map (fun rs => compsAll demoSpans (rs.flatMap (·.sts)))) =
+      some [["A", "x"], ["x"], ["A", "B"], ["A"], ["B"], []] ∧
+    ((buildStructure { demoCfg true with terms := [["B"], ["A", "x"], ["2", "A", "B"]], clusterByNumerical := true }).toOption.map
+      (fun rs => compsAll demoSpans (rs.flatMap (·.sts)))) = some [["B"], [], ["A", "B"], ["A"], ["A", "x"], ["x"]] := by
+  decide +kernel
+
+/-- C03.11  Hence, on a fully crossed design, the SPACE spanned by the columns of the emitted structure does not depend on
+the order or clustering of the terms (both structures have linearly independent columns). -/
+theorem structure_span_order_invariant (cfg cfg' : Config) (hcache : cfg'.cache = cfg.cache)
+    (hperm : cfg'.terms.Perm cfg.terms) (hefr : cfg.ensureFullRank = true) (hefr' : cfg'.ensureFullRank = true)
+    (hwf : ∀ t ∈ cfg.terms, t.Nodup)
+    (hsc : ∀ t ∈ cfg.terms, ∀ efs, evaledFactors cfg.cache t = .ok efs → literalScale efs ≠ 0)
+    (rs rs' : List TermResult) (h : buildStructure cfg = .ok rs) (h' : buildStructure cfg' = .ok rs')
+    {K : Type} [Field K] {n : ℕ} {L JR JF : Fin n → Type}
+    (expr : Fin n → String) (hinj : Function.Injective expr)
+    (R : (i : Fin n) → JR i → (L i → K)) (F : (i : Fin n) → JF i → (L i → K))
+    (hyp : Hyp R F (fun i => spansOf cfg.cache (expr i)))
+    (hcov : ∀ st ∈ rs.flatMap (·.sts) ++ rs'.flatMap (·.sts), ∀ sf ∈ st.factors, ∃ i, expr i = sf.expr) :
+    Submodule.span K (Set.range (structureColumns expr R F (rs.flatMap (·.sts)))) =
+      Submodule.span K (Set.range (structureColumns expr R F (rs'.flatMap (·.sts)))) := by
+  have hwf' : ∀ t ∈ cfg'.terms, t.Nodup := fun t ht => hwf t (hperm.mem_iff.mp ht)
+  have hsc' : ∀ t ∈ cfg'.terms, ∀ efs, evaledFactors cfg'.cache t = .ok efs → literalScale efs ≠ 0 := by
+    intro t ht efs he
+    rw [hcache] at he
+    exact hsc t (hperm.mem_iff.mp ht) efs he
+  have hp := components_order_invariant cfg cfg' hcache hperm hefr hefr' hwf hsc rs rs' h h'
+  have hfr := structurally_full_rank cfg hefr hwf hsc rs h
+  have hfr' := structurally_full_rank cfg' hefr' hwf' hsc' rs' h'
+  rw [hcache] at hfr'
+  have hspan : (compsAll (spansOf cfg.cache) (rs.flatMap (·.sts))).Perm
+      (compsAll (spansOf cfg.cache) (rs'.flatMap (·.sts))).eraseDups := by
+    rw [List.perm_ext_iff_of_nodup hfr (nodup_eraseDups _ _ (Nat.le_refl _))]
+    intro x
+    rw [List.mem_eraseDups]
+    exact hp.mem_iff
+  exact (FormulaicVerif.Proofs.C03Bridge.model_structure_full_rank_same_span expr cfg.cache R F hinj hyp _ _
+    (exprNodup_of_structure h hwf) (exprNodup_of_structure h' hwf')
+    (fun st hst => hcov st (List.mem_append_left _ hst)) (fun st hst => hcov st (List.mem_append_right _ hst))
+    hfr hspan).2
+
+/-- C03.12  … and so does the column space of the MATRIX the model emits: reordering or re-clustering the terms changes
+which columns are emitted, never the space they span (fully crossed design, no printed-name collisions). -/
+theorem matrix_span_order_invariant (cfg cfg' : Config) (hcache : cfg'.cache = cfg.cache) (hrows : cfg'.nrows = cfg.nrows)
+    (hperm : cfg'.terms.Perm cfg.terms) (hefr : cfg.ensureFullRank = true) (hefr' : cfg'.ensureFullRank = true)
+    (hwf : ∀ t ∈ cfg.terms, t.Nodup)
+    (hsc : ∀ t ∈ cfg.terms, ∀ efs, evaledFactors cfg.cache t = .ok efs → literalScale efs ≠ 0)
+    (asDict asDict' : Bool) (out out' : List Entry) (h : buildMatrix cfg asDict = .ok out)
+    (h' : buildMatrix cfg' asDict' = .ok out')
+    (hnc : noCollision cfg asDict = true) (hnc' : noCollision cfg' asDict' = true)
+    {n : ℕ} (k : Fin n → ℕ) (expr : Fin n → String) (tab : Fin n → Bool → List Item)
+    (B : (i : Fin n) → (b : Bool) → Fin (tab i b).length → (Fin (k i) → ℚ))
+    (row : Fin cfg.nrows → (i : Fin n) → Fin (k i))
+    (hd : CrossedDesign cfg.cache cfg.nrows k expr tab B row)
+    (hyp : Hyp (Rd k tab B) (Fd k tab B) (fun i => spansOf cfg.cache (expr i)))
+    (hcov : ∀ rs rs', buildStructure cfg = .ok rs → buildStructure cfg' = .ok rs' →
+      ∀ st ∈ rs.flatMap (·.sts) ++ rs'.flatMap (·.sts), ∀ sf ∈ st.factors, ∃ i, expr i = sf.expr) :
+    Submodule.span ℚ (Set.range (fun a : Fin out.length => colVec cfg.nrows out[a])) =
+      Submodule.span ℚ (Set.range (fun a : Fin out'.length => colVec cfg.nrows out'[a])) := by
+  obtain ⟨rs, hrs, _⟩ := matrix_eq_ref h hnc
+  obtain ⟨rs', hrs', _⟩ := matrix_eq_ref h' hnc'
+  have hc := hcov rs rs' hrs hrs'
+  have hwf' : ∀ t ∈ cfg'.terms, t.Nodup := fun t ht => hwf t (hperm.mem_iff.mp ht)
+  have hsc' : ∀ t ∈ cfg'.terms, ∀ efs, evaledFactors cfg'.cache t = .ok efs → literalScale efs ≠ 0 := by
+    intro t ht efs he
+    rw [hcache] at he
+    exact hsc t (hperm.mem_iff.mp ht) efs he
+  have hspan := structure_span_order_invariant cfg cfg' hcache hperm hefr hefr' hwf hsc rs rs' hrs hrs' expr
+    hd.expr_inj (Rd k tab B) (Fd k tab B) hyp hc
+  obtain ⟨s1, _⟩ := matrix_columns_are_structure_columns cfg asDict out h hnc hwf hsc k expr tab B row hd rs hrs
+    (fun st hst => hc st (List.mem_append_left _ hst))
+  -- the second configuration has the same cache and the same rows
+  obtain ⟨cache', terms', efr', cl', v', nrows'⟩ := cfg'
+  simp only at hcache hrows
+  subst hcache hrows
+  obtain ⟨s2, _⟩ := matrix_columns_are_structure_columns _ asDict' out' h' hnc' hwf' hsc' k expr tab B row hd rs' hrs'
+    (fun st hst => hc st (List.mem_append_right _ hst))
+  rw [s1, hspan]
+  exact s2.symm
+
+/-- non-vacuity of C03.12: the example design with its terms reversed and clustered by numerical factors -/
+example : ∃ out out', buildMatrix (exCfg true) false = .ok out ∧
+    buildMatrix { exCfg true with terms := exTerms.reverse, clusterByNumerical := true } true = .ok out' ∧
+    Submodule.span ℚ (Set.range (fun a : Fin out.length => colVec 12 out[a])) =
+      Submodule.span ℚ (Set.range (fun a : Fin out'.length => colVec 12 out'[a])) := by
+  have hok : (buildMatrix (exCfg true) false).toOption.isSome ∧
+      (buildMatrix { exCfg true with terms := exTerms.reverse, clusterByNumerical := true } true).toOption.isSome := by
+    decide +kernel
+  cases h1 : buildMatrix (exCfg true) false with
+  | error e => simp [h1, Except.toOption] at hok
+  | ok out =>
+    cases h2 : buildMatrix { exCfg true with terms := exTerms.reverse, clusterByNumerical := true } true with
+    | error e => simp [h2, Except.toOption] at hok
+    | ok out' =>
+      refine ⟨out, out', rfl, rfl, ?_⟩
+      have hsc : ∀ t ∈ (exCfg true).terms, ∀ efs, evaledFactors (exCfg true).cache t = .ok efs →
+          literalScale efs ≠ 0 := by
+        have hall : ∀ t ∈ (exCfg true).terms, nonzeroScale exCache t = true := by decide +kernel
+        intro t ht efs he
+        have := hall t ht
+        have he' : evaledFactors exCache t = .ok efs := he
+        simp only [nonzeroScale, he', bne_iff_ne, ne_eq] at this
+        exact this
+      have hcovB : (match buildStructure (exCfg true),
+            buildStructure { exCfg true with terms := exTerms.reverse, clusterByNumerical := true } with
+          | .ok rs, .ok rs' => exCovered rs && exCovered rs'
+          | _, _ => false) = true := by decide +kernel
+      apply matrix_span_order_invariant (exCfg true)
+        { exCfg true with terms := exTerms.reverse, clusterByNumerical := true } rfl rfl
+        (by show exTerms.reverse.Perm exTerms; exact List.reverse_perm _) rfl rfl (by decide) hsc false true out out' h1 h2
+        (by decide +kernel) (by decide +kernel) exK exExpr exTab exB exRow exDesign_crossed exDesign_hyp
+      intro rs rs' hrs hrs' st hst sf hsf
+      simp only [hrs, hrs', Bool.and_eq_true, exCovered, List.all_eq_true, decide_eq_true_eq] at hcovB
+      rcases List.mem_append.mp hst with hst | hst
+      · obtain ⟨r, hr, hin⟩ := List.mem_flatMap.mp hst
+        exact hcovB.1 r hr st hin sf hsf
+      · obtain ⟨r, hr, hin⟩ := List.mem_flatMap.mp hst
+        exact hcovB.2 r hr st hin sf hsf
+
+end matrix
+
+section crossed
+open FormulaicVerif.Proofs.TensorRank FormulaicVerif.Proofs.C03Bridge FormulaicVerif.Proofs.C03Matrix
+  FormulaicVerif.Proofs.C03Ref FormulaicVerif.Spec.C03 FormulaicVerif.Proofs.C03CrossedMain
+  FormulaicVerif.Proofs.C03Cover FormulaicVerif.Spec.C03Check FormulaicVerif.Proofs.C03Example
+
+/-! ### the property for the matrix that the crossed-design model computes from the design description alone
+
+`Model.Crossed.matrix d terms efr cluster asDict` is what the engine runs in the `crossed` correspondence stream: from the
+level lists / numeric values of the data columns, the factor specifications (`column`, `C(column, contrast)`, numeric
+literal, name bound to `None`) and the term list it computes the frame (`itertools.product`), both encodings of every
+factor through the model of `transforms/contrasts.py`, and then `buildMatrix`. `DesignOK d evs`
+(`Proofs/C03CrossedMain.lean`) collects what the property presupposes, all of it decidable on a concrete design
+(`Spec.C03Check.designOKB`, evaluated by the engine for every case): no two factors share an expression, every axis reads
+its own data column (each data variable is encoded by a single factor expression), no data column is empty, numeric columns
+take two different values, categorical level labels are pairwise different and are inferred by pandas in the given order
+unless declared, the contrast's options fit the levels (base among the levels, polynomial scores pairwise different and as
+many as levels), and flattening an encoding loses no column (no two level labels of a factor print alike — e.g. the
+string `"1"` next to the integer `1`; labels beginning with `__` are ordinary labels). -/
+
+/-- C03.16  THE PROPERTY, for every design: for EVERY well-formed design description (any number of categorical and
+numeric columns, any level counts ≥ 1, every built-in contrast with any valid options, bare columns, literals, names bound
+to `None`), every term list without repeated factors and without zero scalings, either clustering and either assembly —
+provided no two columns print to the same name — the matrix the model computes with rank reduction ON has linearly
+independent columns, and they span the same space as the columns of the matrix computed with rank reduction OFF. -/
+theorem crossed_model_full_rank_same_span (d : Crossed.Design) (evs : List Crossed.Evaled) (hok : DesignOK d evs)
+    (terms : List MTerm) (cluster asDict : Bool) (hwf : ∀ t ∈ terms, t.Nodup)
+    (hsc : ∀ t ∈ terms, ∀ efs, evaledFactors (evs.map (·.ef)) t = .ok efs → literalScale efs ≠ 0)
+    (hnc : noCollision (Crossed.configOf d evs terms true cluster) asDict = true)
+    (hncF : noCollision (Crossed.configOf d evs terms false cluster) asDict = true)
+    (out outFull : List Entry) (h : Crossed.matrix d terms true cluster asDict = .ok out)
+    (hfull : Crossed.matrix d terms false cluster asDict = .ok outFull) :
+    LinearIndependent ℚ (fun a : Fin out.length => colVec (Crossed.rows d).length out[a]) ∧
+    Submodule.span ℚ (Set.range (fun a : Fin out.length => colVec (Crossed.rows d).length out[a])) =
+      Submodule.span ℚ (Set.range (fun a : Fin outFull.length => colVec (Crossed.rows d).length outFull[a])) := by
+  obtain ⟨n, k, expr, tabl, B, row, hcd, hyp, hcover⟩ := model_cache_is_crossed d evs hok
+  have h1 := matrix_ok d evs hok.evals terms true cluster asDict out h
+  have h2 := matrix_ok d evs hok.evals terms false cluster asDict outFull hfull
+  apply matrix_full_rank_same_span (Crossed.configOf d evs terms true cluster) rfl hwf hsc asDict out outFull h1 h2
+    hnc hncF k expr tabl B row hcd hyp
+  intro rs rsFull hrs hrsFull st hst sf hsf
+  have key : ∀ (cfg : Config), cfg.cache = evs.map (·.ef) → ∀ rs', buildStructure cfg = .ok rs' →
+      ∀ st ∈ rs'.flatMap (·.sts), ∀ sf ∈ st.factors, ∃ i, expr i = sf.expr := by
+    intro cfg hc rs' hrs' st hst sf hsf
+    obtain ⟨f, hf, hp, hd⟩ := structure_factors hrs' st hst sf hsf
+    rw [hc] at hf
+    obtain ⟨p, hp', he⟩ := data_factor_is_axis d evs hok sf.expr f hf hp hd
+    obtain ⟨i, hi⟩ := hcover p hp'
+    exact ⟨i, hi.trans he⟩
+  rcases List.mem_append.mp hst with hst | hst
+  · exact key _ rfl rs hrs st hst sf hsf
+  · exact key _ rfl rsFull hrsFull st hst sf hsf
+
+/-- C03.17  The same with every hypothesis in executable form: whenever the check `Spec.C03Check.certified` — which the
+engine evaluates for every case of the `crossed` stream — returns `true`, the property holds for the matrices the model
+computes. -/
+theorem certified_design_full_rank_same_span (d : Crossed.Design) (terms : List MTerm) (cluster asDict : Bool)
+    (hcert : certified d terms cluster asDict = true)
+    (out outFull : List Entry) (h : Crossed.matrix d terms true cluster asDict = .ok out)
+    (hfull : Crossed.matrix d terms false cluster asDict = .ok outFull) :
+    LinearIndependent ℚ (fun a : Fin out.length => colVec (Crossed.rows d).length out[a]) ∧
+    Submodule.span ℚ (Set.range (fun a : Fin out.length => colVec (Crossed.rows d).length out[a])) =
+      Submodule.span ℚ (Set.range (fun a : Fin outFull.length => colVec (Crossed.rows d).length outFull[a])) := by
+  unfold certified at hcert
+  cases hev : Crossed.evalFactors d d.factors with
+  | error e => simp [hev] at hcert
+  | ok evs =>
+    simp only [hev, Bool.and_eq_true, List.all_eq_true, decide_eq_true_eq] at hcert
+    obtain ⟨⟨⟨⟨h1, h2⟩, h3⟩, h4⟩, h5⟩ := hcert
+    apply crossed_model_full_rank_same_span d evs (designOK_of_check hev h1) terms cluster asDict h2 ?_ h4 h5 out outFull h hfull
+    intro t ht efs he
+    have := h3 t ht
+    simpa [nonzeroScaleB, he] using this
+
+/-- non-vacuity of C03.16 / C03.17: the design of `Proofs/C03Example.lean` (treatment-coded `A` × `C(B, contr.sum)` on an
+undeclared object column × numeric `x`, formula `0 + A + 2:A:C(B, contr.sum) + A:x`) is certified, for both assemblies -/
+example : certified exDesign exTerms false false = true ∧ certified exDesign exTerms true true = true := by
+  decide +kernel
+
+end crossed
+
+section model
+open FormulaicVerif.Proofs.C03Model FormulaicVerif.Model.ScopedOps
+
+/-! ### the parts of the code that entered the model with the extension -/
+
+/-- C03.13  A factor without values (`values.__wrapped__ is None`, e.g. a name bound to `None`) is invisible to the rank
+reduction: `_get_scoped_terms` treats a term exactly as the term with those factors left out — the same scoped terms, the
+same update of `spanned` (in particular a term all of whose factors lack values yields nothing and spans nothing). -/
+theorem valueless_factors_are_ignored (c : Cache) (efr : Bool) (spanned : List ST) (t : MTerm)
+    (hget : ∀ e ∈ t, ∃ f, c.get e = .ok f) :
+    scopeTerm c efr spanned (t.filter (hasValues c)) = scopeTerm c efr spanned t :=
+  scopeTerm_filter c efr spanned t hget
+
+/-- the demo cache with a name `z` bound to `None` -/
+def nullCache : Cache := ⟨"z", false, .numerical, false, encNum, encNum⟩ :: demoCache
+
+/-- non-vacuity: `z:A` with `z` bound to `None` is scoped like `A` -/
+example : (∀ e ∈ ["z", "A"], ∃ f, Cache.get nullCache e = .ok f) ∧ ["z", "A"].filter (hasValues nullCache) = ["A"] := by
+  refine ⟨?_, by decide +kernel⟩
+  intro e he
+  simp only [List.mem_cons, List.not_mem_nil, or_false] at he
+  rcases he with rfl | rfl
+  · exact ⟨⟨"z", false, .numerical, false, encNum, encNum⟩, by decide +kernel⟩
+  · exact ⟨⟨"A", true, .categorical, true, encCat, encCat⟩, by decide +kernel⟩
+
+/-- C03.14  Identity of scoped factors and scoped terms is STRUCTURAL: two scoped factors are `==` iff they have the same
+factor expression and the same reduced flag (never because they PRINT alike: the reduced factor `A` and the full factor
+named `A-` both print `A-`), two scoped terms are `==` iff their factor tuples are permutations of each other (the scale is
+ignored), anything else is unequal; `==` is symmetric, and equal objects have equal hashes (`hash` is a function of
+`hashKey`). -/
+theorem scoped_identity_is_structural :
+    (∀ a b : SF, pyEq (.sf a) (.sf b) = true ↔ a = b) ∧
+    (∀ a b : ST, pyEq (.st a) (.st b) = true ↔ a.factors.Perm b.factors) ∧
+    (∀ a b : Obj, pyEq a b = pyEq b a) ∧
+    (∀ a b : Obj, pyEq a b = true → hashKey a = hashKey b ∧ (hashKey a).isSome = true) := by
+  refine ⟨?_, ?_, pyEq_comm, fun a b h => pyEq_hash h⟩
+  · intro a b; simp [pyEq]
+  · intro a b; exact FormulaicVerif.Proofs.Sort.ST.eq_iff_perm a b
+
+/-- the printed form does not decide identity: `A` reduced and a factor NAMED `A-` print alike and are different -/
+example : reprSF ⟨"A", true⟩ = reprSF ⟨"A-", false⟩ ∧ pyEq (.sf ⟨"A", true⟩) (.sf ⟨"A-", false⟩) = false ∧
+    ST.eq ⟨[⟨"A", true⟩], 1⟩ ⟨[⟨"A-", false⟩], 1⟩ = false := by decide +kernel
+
+/-- C03.15  The data frame of the crossed-design model (`Model.Crossed.rows`, `itertools.product` of the level indices of
+all columns) contains EVERY combination of levels, each exactly once: a tuple is a row iff it has one entry per column,
+each below the number of levels of its column. -/
+theorem model_frame_fully_crossed (d : FormulaicVerif.Model.Crossed.Design) :
+    (∀ p : List Nat, p ∈ FormulaicVerif.Model.Crossed.rows d ↔
+      List.Forall₂ (fun l (col : FormulaicVerif.Model.Crossed.Column) => l < col.size) p d.columns) ∧
+    (FormulaicVerif.Model.Crossed.rows d).Nodup :=
+  ⟨rows_complete d, rows_nodup d⟩
+
+/-- C03.18  The column-name templates the model of `transforms/contrasts.py` attaches to an encoding
+(`get_factor_format`: `FACTOR_FORMAT` / `FACTOR_FORMAT_REDUCED` of the contrast's class) are those of the LIVE package:
+`Gen/ContrastsTable.lean` is regenerated from `ContrastsRegistry` on every check; every built-in contrast is registered
+there under its `contr.<name>` and its pair of templates is the table's entry for its class. (The defaults of
+`FactorValuesMetadata`, used for numeric factors, are read from the generated `Gen/FactorMeta.lean`, and the model's own
+template parser turns `{name}[{field}]` into the very segments the translator recorded.) -/
+theorem contrast_formats_are_live (c : FormulaicVerif.Model.Contrasts.Contrast) :
+    (∃ cls, (registryName c, cls) ∈ FormulaicVerif.Gen.ContrastsTable.registry ∧
+      (cls, FormulaicVerif.Model.Contrasts.factorFormat c false,
+        FormulaicVerif.Model.Contrasts.factorFormat c true) ∈ FormulaicVerif.Gen.ContrastsTable.formats) ∧
+    FormulaicVerif.Model.Crossed.parseFmt "{name}[{field}]" = FormulaicVerif.Gen.defaultFormat :=
+  ⟨formats_live c, default_format_parsed⟩
+
+end model
 
 end FormulaicVerif.Props.C03
